@@ -917,6 +917,8 @@ protected:
 
   /// Mark item as unused
   void MarkAsUnused(Container& cnt, int ) {
+    if (cnt.IsBridged())      // Already reformulated: the reformulation
+      return;                 // stays in the model, defining the result
     cnt.MarkAsUnused();
     ++n_bridged_or_unused_;
   }
